@@ -24,8 +24,10 @@ checks, na = [], []
 for p in props:
     pid = p["id"]
     h = V / "checks" / "harness" / f"{pid.lower()}.py"
-    if not h.exists():
-        na.append({"property_id": pid, "reason": "check not built yet in this revision of /verif (planned, see DESIGN.md section 2)"})
+    ob = V / "checks" / "obligations" / f"{pid}.json"
+    if not h.exists() or not ob.exists():
+        # a property is claimed only when both its harness and its list of proof obligations exist
+        na.append({"property_id": pid, "reason": "check not complete in this revision of /verif (no Lean proof obligations registered yet; planned, see DESIGN.md section 2) - not a claim that the technique cannot apply"})
         continue
     a = attrs(h)
     checks.append({
